@@ -358,7 +358,7 @@ def main(ctx):
         return
     cases = gen_cases(ctx)
     vlib.seq_correspondence(ctx, hcmd, dcmd, cases, nontrivial=nontrivial, keep_prefix=1,
-                            signature_of=signature_of, judge=judge, timeout=900, max_reports=5)
+                            signature_of=signature_of, judge=judge, timeout=900, max_reports=3)
     ctx.cov["exhaustive"] = True
     ctx.cov["explanation"] = ("exhaustive=true refers to the bounded spaces described in rule; the theorems are "
                               "unbounded (any message length, any number of handlers/threads/calls, any schedule)")
